@@ -13,7 +13,8 @@ OP_RULES = [
     (r'auto location = json_pointer_type::parse\(path, local_ec\);', 'int location = P_LOC; (void)vx_fail(&local_ec);', 1),
     (r'string_type from = it_from->value\(\)\.as_string\(\);', 'int from = P_FROM;', 2), (r'auto from_pointer = json_pointer_type::parse\(from, local_ec\);', 'int from_pointer = P_FROM; (void)vx_fail(&local_ec);', 1),
     (r'op\s*==\s*%s(\w+)_name\(\)' % NAMES, lambda m: 'vx_op == OP_' + m.group(1).upper(), 6, 8),
-    (r'Json (val|orig_val) = jsonpointer::get\(target,\s*(\w+),\s*(\w+)\);', r'int \1 = vx_get(\2, &\3);', 6, 12),
+    (r'Json (val|orig_val) = jsonpointer::get\(target,\s*(\w+),\s*(\w+)\);', r'int \1 = vx_get(\2, &\3);', 3, 12),
+    (r'Json& (\w+) = jsonpointer::get\(target,\s*(\w+),\s*(\w+)\);', r'int \1 = vx_get(\2, &\3);', 0, 6), (r'Json (\w+)\(std::move\((\w+)\)\);', r'int \1 = vx_move_out(\2);', 0, 6), (r'Json (\w+) = std::move\((\w+)\);', r'int \1 = vx_move_out(\2);', 0, 6),
     (r'Json val = it_value->value\(\);', 'int val = V_NEW;', 1),
     (r'val != it_value->value\(\)', 'vx_test_differs', 1),
     (r'auto npath = jsonpatch::detail::definite_path\(target,\s*location\);', 'int npath = vx_definite(location);', 3),
@@ -26,9 +27,10 @@ OP_RULES = [
 ]
 KNOWN = '(vx_op == OP_TEST || vx_op == OP_ADD || vx_op == OP_REMOVE || vx_op == OP_REPLACE || vx_op == OP_MOVE || vx_op == OP_COPY)'
 OPC = [
-    ('requires', '*ec_p == 0 && vx_tok == 0 && !vx_get_valid && !vx_pending && vx_edits == 0 && vx_pushes == 0'),
-    ('assigns', '*ec_p, vx_def_stamp, vx_state, vx_tok, vx_get_valid, vx_get_path, vx_get_tok, vx_pend_kind, vx_pend_path, vx_pend_tok, vx_pending, vx_edits, vx_pushes'),
+    ('requires', '*ec_p == 0 && vx_tok == 0 && !vx_get_valid && !vx_pending && vx_edits == 0 && vx_pushes == 0 && !vx_hollow'),
+    ('assigns', '*ec_p, vx_hollow, vx_hollow_path, vx_def_stamp, vx_state, vx_tok, vx_get_valid, vx_get_path, vx_get_tok, vx_pend_kind, vx_pend_path, vx_pend_tok, vx_pending, vx_edits, vx_pushes'),
     ('ensures', '[C15] every successful edit of the document has its inverse on the undo stack when the operation is left, whether it succeeded or failed', '!vx_pending && vx_pushes == vx_edits'),
+    ('ensures', '[C15] no location of the document is left moved-from (emptied through a reference) when the operation is left: such a change has no undo entry', '!vx_hollow'),
     ('ensures', '[C15] a failure is reported through the error code and marks the run aborted, so that the unwinder restores the document; success leaves the run open for commit',
      '(*ec_p != 0) == (vx_state == state_type_abort) && (*ec_p == 0 ==> vx_state == state_type_begin)'),
     ('ensures', '[C15] RFC 6902 section 4: an operation without "op" or "path", or whose "op" is not one of add, remove, replace, move, copy, test, is an error (invalid_patch) and edits nothing',
